@@ -497,13 +497,23 @@ impl<'r> Grammar<'r> {
                 } else {
                     self.km("except", Mark::Closer(depth));
                     if self.rng.chance(1, 2) {
-                        self.km("on", Mark::Start(depth + 1));
-                        self.t("E");
-                        self.t(":");
-                        self.t("Exception");
-                        self.k("do");
-                        self.body(depth + 1);
-                        self.t(";");
+                        let handlers = self.rng.range(1, 2);
+                        for h in 0..handlers {
+                            self.km("on", Mark::Start(depth + 1));
+                            if h == 0 || self.rng.chance(1, 2) {
+                                self.t("E");
+                                self.t(":");
+                            }
+                            self.t(if h == 0 { "Exception" } else { "EAbort" });
+                            self.k("do");
+                            self.body(depth + 1);
+                            self.t(";");
+                        }
+                        if self.rng.chance(1, 3) {
+                            // the `else` part of an exception block is a statement list of its own
+                            self.km("else", Mark::Closer(depth));
+                            self.stmt_list(depth + 1);
+                        }
                     } else {
                         self.stmt_list(depth + 1);
                     }
@@ -549,6 +559,11 @@ impl<'r> Grammar<'r> {
                     self.t(":=");
                     self.expr(depth, 1);
                 }
+            }
+            18 if self.labels && self.rng.chance(1, 2) => {
+                self.km("goto", m);
+                let l = self.rng.pick_str(&["Done", "Retry"]).to_string();
+                self.t(&l);
             }
             18 => {
                 self.km("Exit", m);
@@ -701,7 +716,8 @@ impl<'r> Grammar<'r> {
             let name = format!("T{}", self.ident());
             self.tm(&name, Mark::Start(depth + 1));
             self.t("=");
-            match self.rng.below(4) {
+            match self.rng.below(6) {
+                4 | 5 => self.simple_type_def(),
                 0 => {
                     self.k("class");
                     if self.rng.chance(1, 2) {
@@ -716,7 +732,94 @@ impl<'r> Grammar<'r> {
                         self.km(&v, Mark::Closer(depth + 1));
                         let nm = self.rng.range(1, 3);
                         for _ in 0..nm {
-                            match self.rng.below(3) {
+                            match self.rng.below(7) {
+                                3 => {
+                                    // class method
+                                    self.km("class", Mark::Start(depth + 2));
+                                    if self.rng.chance(1, 2) {
+                                        self.k("function");
+                                        let i = self.ident();
+                                        self.t(&i);
+                                        self.t(":");
+                                        let ty = self.rng.pick(TYPES).to_string();
+                                        self.t(&ty);
+                                    } else {
+                                        self.k("procedure");
+                                        let i = self.ident();
+                                        self.t(&i);
+                                        self.param_list();
+                                    }
+                                    self.t(";");
+                                    if self.rng.chance(1, 2) {
+                                        self.k("static");
+                                        self.t(";");
+                                    }
+                                }
+                                4 => {
+                                    if self.rng.chance(1, 2) {
+                                        self.km("constructor", Mark::Start(depth + 2));
+                                        self.t("Create");
+                                        self.param_list();
+                                        self.t(";");
+                                        if self.rng.chance(1, 2) {
+                                            self.k("overload");
+                                            self.t(";");
+                                        }
+                                    } else {
+                                        self.km("destructor", Mark::Start(depth + 2));
+                                        self.t("Destroy");
+                                        self.t(";");
+                                        self.k("override");
+                                        self.t(";");
+                                    }
+                                }
+                                5 => {
+                                    // array property, possibly the default one
+                                    self.km("property", Mark::Start(depth + 2));
+                                    self.t("Items");
+                                    self.t("[");
+                                    self.t("Index");
+                                    self.t(":");
+                                    self.t("Integer");
+                                    self.t("]");
+                                    self.t(":");
+                                    let ty = self.rng.pick(TYPES).to_string();
+                                    self.t(&ty);
+                                    self.k("read");
+                                    self.t("GetItem");
+                                    self.k("write");
+                                    self.t("SetItem");
+                                    self.t(";");
+                                    if self.rng.chance(1, 2) {
+                                        self.k("default");
+                                        self.t(";");
+                                    }
+                                }
+                                6 => {
+                                    // property with index / stored / default specifiers
+                                    self.km("property", Mark::Start(depth + 2));
+                                    let i = self.ident();
+                                    self.t(&i);
+                                    self.t(":");
+                                    self.t("Integer");
+                                    if self.rng.chance(1, 2) {
+                                        self.k("index");
+                                        self.t("1");
+                                    }
+                                    self.k("read");
+                                    self.t("GetValue");
+                                    self.k("write");
+                                    self.t("SetValue");
+                                    if self.rng.chance(1, 2) {
+                                        self.k("stored");
+                                        self.t("False");
+                                    }
+                                    if self.rng.chance(1, 2) {
+                                        self.k("default");
+                                        self.t("0");
+                                    }
+                                    self.t(";");
+                                }
                                 0 => {
                                     let i = format!("F{}", self.ident());
                                     self.tm(&i, Mark::Start(depth + 2));
@@ -785,6 +888,71 @@ impl<'r> Grammar<'r> {
                 }
             }
             self.t(";");
+        }
+    }
+
+    /// one-line type definitions of the rarer kinds
+    fn simple_type_def(&mut self) {
+        match self.rng.below(8) {
+            0 => {
+                self.k("set");
+                self.k("of");
+                self.t("TEnum");
+            }
+            1 => {
+                self.t("^");
+                self.t("TFoo");
+            }
+            2 => {
+                self.k("procedure");
+                self.t("(");
+                self.t("Sender");
+                self.t(":");
+                self.t("TObject");
+                self.t(")");
+                self.k("of");
+                self.k("object");
+            }
+            3 => {
+                self.k("reference");
+                self.k("to");
+                self.k("function");
+                self.t("(");
+                self.t("x");
+                self.t(":");
+                self.t("Integer");
+                self.t(")");
+                self.t(":");
+                self.t("Integer");
+            }
+            4 => {
+                self.k("class");
+                self.k("of");
+                self.t("TFoo");
+            }
+            5 => {
+                self.t("(");
+                self.t("eA");
+                self.t("=");
+                self.t("1");
+                self.t(",");
+                self.t("eB");
+                self.t("=");
+                self.t("2");
+                self.t(")");
+            }
+            6 => {
+                self.t("1");
+                self.t("..");
+                self.t("10");
+            }
+            _ => {
+                self.k("array");
+                self.k("of");
+                self.k("array");
+                self.k("of");
+                self.t("Integer");
+            }
         }
     }
 
